@@ -4,6 +4,7 @@ package main
 import (
 	"context"
 	"fmt"
+	ucb "github.com/cloudwego/eino/utils/callbacks"
 	"io"
 	"sort"
 	"strings"
@@ -33,6 +34,7 @@ type spec struct {
 	caller  string // all | one | none   (how much of the output stream the caller reads before Close)
 	call    string // stream | transform
 	closers bool   // a per-call callback handler that closes every stream copy it is given at once
+	helper  bool   // a per-call handler made with utils/callbacks.HandlerHelper from a built handler that has NO stream function
 	sbranch bool   // stream branches reading one chunk
 	cap     int    // pipe capacity of producers
 	chunks  int    // chunks every producer sends (more than all buffers on its way when "long")
@@ -292,6 +294,14 @@ func (sp *spec) build() (func(), func(x *vsched.Exec) (string, error)) {
 		if sp.closers {
 			opts = append(opts, compose.WithCallbacks(closer{}))
 		}
+		if sp.helper {
+			// the handler only wants OnEnd of non-stream runs: for stream events it is not needed, nobody must be left
+			// holding a stream copy on its behalf
+			h := callbacks.NewHandlerBuilder().OnEndFn(func(ctx context.Context, i *callbacks.RunInfo, out callbacks.CallbackOutput) context.Context {
+				return ctx
+			}).Build()
+			opts = append(opts, compose.WithCallbacks(ucb.NewHandlerHelper().Graph(h).Lambda(h).Chain(h).Handler()))
+		}
 		var sr *schema.StreamReader[Val]
 		if sp.call == "transform" {
 			in := sp.producer(w, "caller-input", "in", nil, Val{"in": "x"}, false)
@@ -486,7 +496,10 @@ func main() {
 		for _, k := range kas {
 			for si, script := range scripts {
 				for _, caller := range []string{"all", "one", "none"} {
-					for _, variant := range []string{"plain", "closers", "sbranch", "transform", "cap0", "long", "unequal"} {
+					for _, variant := range []string{"plain", "closers", "sbranch", "transform", "cap0", "long", "unequal", "helper"} {
+						if variant == "helper" && !((sn == "dag-lin2" || sn == "pregel-lin2" || sn == "dag-fan") && caller == "one" && (k.tag == "allS" || k.tag == "allT")) {
+							continue
+						}
 						if variant == "unequal" && !((sn == "dag-fan" || sn == "pregel-fan" || sn == "wf-fan") && caller == "one") {
 							continue // fan-in of two streams: one source ends after one chunk, the other is long; the caller reads a few chunks
 						}
@@ -504,7 +517,7 @@ func main() {
 						}
 						if quick && heavy[sn] {
 							// >= 6 threads: a lean menu in the quick tier (the full one runs in thorough)
-							if !(k.tag == "allT" || k.tag == "allS" || (k.tag == "allTp" && variant == "long")) || (caller == "none" && variant != "long") || !(variant == "plain" || variant == "closers" || variant == "long" || variant == "unequal") {
+							if !(k.tag == "allT" || k.tag == "allS" || (k.tag == "allTp" && variant == "long")) || (caller == "none" && variant != "long") || !(variant == "plain" || variant == "closers" || variant == "long" || variant == "unequal" || variant == "helper") {
 								continue
 							}
 							// handlers that close their copies add a copy + forwarder per node: only the two fan shapes, one caller
@@ -526,6 +539,9 @@ func main() {
 							// nobody drains: prefix-reading stream branches, more chunks than all buffers on the way
 							sp.chunks = 9
 							sp.sbranch = len(p.Branches) > 0
+						case "helper":
+							sp.helper = true
+							sp.chunks = 9
 						case "unequal":
 							sp.chunks = 9
 							sp.short = "a"
@@ -545,7 +561,7 @@ func main() {
 						if p.Mode == gprog.MWorkflow || sn == "dag-copyjoin" || sn == "dag-edge+branch" || (heavy[sn] && variant == "closers") {
 							b = bounds[:len(bounds)-2] // 7+ threads: two bounds less
 						}
-						if (variant == "long" || variant == "unequal") && len(b) > 2 {
+						if (variant == "long" || variant == "unequal" || variant == "helper") && len(b) > 2 {
 							b = b[:2] // long executions: bounds 0 and 1
 						}
 						sc := harness.Scenario{Name: sp.name, Bounds: b, MaxExecs: 400_000, HBCache: true, New: sp.build}
